@@ -7,8 +7,9 @@ from ropt.plugins.optimizer.base import OptimizerPlugin
 
 from ..core import PropertyCheck
 
-METH = {"a": "rv-a", "b": "rv-b", "c": "rv-c", "s": "slsqp", "t": "scipy/slsqp", "d": "default"}       # spec method -> real method name
-SETS = {1: {"a", "b", "s"}, 2: {"b", "c"}, 3: {"a", "c"}}
+METH = {"a": "rv-a", "b": "rv-b", "c": "rv-c", "s": "slsqp", "t": "scipy/slsqp", "d": "default", "q": "rv-Q", "k": "rv-q"}       # spec method -> real method name
+SETS = {1: {"a", "b", "s", "k"}, 2: {"b", "c", "q"}, 3: {"a", "c"}}
+EXACT = {"rv-Q", "rv-q"}          # method names matched case-sensitively by the test plug-ins
 PTYPE = "optimizer"
 
 
@@ -21,6 +22,8 @@ class TestPlugin(OptimizerPlugin):
         raise NotImplementedError
 
     def is_supported(self, method):
+        if method in EXACT or method.lower() in {e.lower() for e in EXACT}:
+            return method in self.names
         return method.lower() in self.names
 
     @property
@@ -64,9 +67,11 @@ def drive(sc):
     mgrs[1].add_plugin(other, "rvother-second", TestPlugin(2), prioritize=True)
     plugs = {(m, i): TestPlugin(i) for m in (0, 1) for i in (1, 2, 3)}
     builtin_ids, regs = {}, []
-    for mgr in mgrs:
-        entries = []
+    first_builtin = ""
+    for mgr in (PluginManager(), PluginManager()):      # the initial registry is read from OTHER managers: the managers under
+        entries = []                                     # test are not touched before the history starts
         for name, plugin in mgr.plugins(ptype):
+            first_builtin = first_builtin or name
             builtin_ids[id(plugin)] = f"B:{name}"
             entries.append({"name": name, "id": f"B:{name}", "discover": bool(plugin.allows_discovery),
                             "methods": [k for k, real in METH.items() if plugin.is_supported(real)]})
@@ -80,7 +85,11 @@ def drive(sc):
         e = {"ev": "Call", **blank, **{k: v for k, v in c.items() if k != "ret"}}
         e["rawl"], e["plugl"] = e["raw"].lower(), e["plug"].lower()      # the lower-case forms the specification reasons about
         if c["op"] == "add":
-            e["ret"] = call(lambda: mgr.add_plugin(ptype, c["raw"], plugs[(c["m"] - 1, c["p"])], prioritize=c["prio"]), builtin_ids)
+            raw = c["raw"]
+            if raw == "b1":                         # the name of the first built-in plug-in of this type, in capitals
+                raw = first_builtin.upper()
+                e["raw"], e["rawl"] = raw, first_builtin.lower()
+            e["ret"] = call(lambda: mgr.add_plugin(ptype, raw, plugs[(c["m"] - 1, c["p"])], prioritize=c["prio"]), builtin_ids)
         else:
             method = (c["plug"] + "/" if c["plug"] else "") + METH[c["meth"]]
             if c.get("upper"):
@@ -116,7 +125,7 @@ def extra_scenarios(tier, seed):
     import random
     rng = random.Random(seed)
     adds = [("x", 1), ("X", 2), ("y", 2), ("z", 3), ("Z", 1), ("Y", 3)]
-    reqs = [("", "a"), ("", "b"), ("", "c"), ("", "s"), ("", "d"), ("external", "d"), ("X", "a"), ("x", "c"), ("y", "b"), ("z", "a"), ("external", "s"), ("external", "t"), ("External", "t"),
+    reqs = [("", "a"), ("", "b"), ("", "c"), ("", "s"), ("", "d"), ("external", "d"), ("", "q"), ("", "k"), ("y", "q"), ("x", "k"), ("x", "q"), ("X", "a"), ("x", "c"), ("y", "b"), ("z", "a"), ("external", "s"), ("external", "t"), ("External", "t"),
             ("q", "a"), ("Z", "c"), ("scipy", "s"), ("SciPy", "s")]
     out = []
     for _ in range(2000 if tier == "quick" else 20000):
